@@ -400,7 +400,7 @@ theorem iso_Z (t : DT) (hd : t.digits) (hv : t.valid) : Iso.fromIso (replaceZ (t
   rw [hr]
   unfold Iso.fromIso Iso.fromIso?
   simp only [DT.text, List.cons_append, List.nil_append, utf8, utf8Char_ascii, lt128_of_dig, ha, hb, hc, hd', he, hf, hg, hh, hi, hj, hk, hl, hm, hn,
-    utf8_dash, utf8_T, utf8_colon, utf8_plus, utf8_zero, List.singleton_append, List.append_nil]
+    utf8_dash, utf8_T, utf8_colon, utf8_plus, utf8_zero, List.append_nil]
   have d0 : dig 48 := by unfold dig; omega
   rw [fromIsoBytes_dt _ _ _ _ _ _ _ _ 84 _ ha hb hc hd' he hf hg hh (by omega),
     timeOk_tz _ _ _ _ _ _ 43 48 48 48 48 hi hj hk hl hm hn (Or.inl rfl) d0 d0 d0 d0 (by decide) (by decide)]
@@ -420,7 +420,7 @@ theorem iso_offset (t : DT) (hd : t.digits) (hv : t.valid) (sg o p q r : Char) (
   rw [hrz]
   unfold Iso.fromIso Iso.fromIso?
   simp only [DT.text, List.cons_append, List.nil_append, utf8, utf8Char_ascii, lt128_of_dig, ha, hb, hc, hd', he, hf, hg, hh, hi, hj, hk, hl, hm, hn,
-    ho, hp, hq, hr, hsgB.1, utf8_dash, utf8_T, utf8_colon, List.singleton_append, List.append_nil]
+    ho, hp, hq, hr, hsgB.1, utf8_dash, utf8_T, utf8_colon, List.append_nil]
   rw [fromIsoBytes_dt _ _ _ _ _ _ _ _ 84 _ ha hb hc hd' he hf hg hh (by omega),
     timeOk_tz _ _ _ _ _ _ _ _ _ _ _ hi hj hk hl hm hn hsgB.2 ho hp hq hr hoff hmin]
   simp [h1, h2, h3, (validYMD_iff _ _ _).2 hdate]
